@@ -86,7 +86,10 @@ def correspondence(ctx):
         "locations, overlapping, missing, none), algorithm lists (subsets/orders of sha256/384/512, duplicates, empty, unknown "
         "names), exclude patterns, strip prefixes, both switches; InTotoRun with a helper command that writes/deletes files, "
         "InTotoRecordStart/Stop around the same operations, InTotoMatchProducts against disturbed product maps. "
-        "trees of names that tools like to ignore (.git/, *.pyc, *~, .DS_Store, node_modules/, *.swp, .svn/, CVS/ ...) recorded with no or "
+        "exclude patterns that look like .gitignore comments or carry blanks/tabs (#*#, \\#x, 'cache ', ' lead', !-prefixed) against "
+        "files named accordingly - patterns are taken literally as passed; files of 8 MiB, 8 MiB+1, 9 MiB+12345, 16 MiB-1 with a "
+        "distinct middle and tail in fixed slots (implementation against the oracle's own SHA-2 only; the model is evaluated on "
+        "contents up to 300 KiB); trees of names that tools like to ignore (.git/, *.pyc, *~, .DS_Store, node_modules/, *.swp, .svn/, CVS/ ...) recorded with no or "
         "unrelated exclude patterns; exclude patterns against links (file link to an excluded target, directly and through a "
         "chain, excluded link name with a target that is not, both, directory link to an excluded directory; patterns keys/, "
         "*.key, id.*) - the oracle decides exclusion on the walked location, i.e. also on the resolved target of a link; file and directory names with bytes a normaliser might touch (backslashes incl. d\\f next to d/f and a\\b\\c next to a/b/c and "
